@@ -898,6 +898,84 @@ for _n in STR_PURE:
     METHODS[_n] = (lambda n: (lambda c: _str_pure(c, n)))(_n)
 
 
+def compiled_pattern(w, t):
+    """(pattern text, flags) if term t is a compiled regular expression whose source is
+    static: re.compile(<constant str>[, <constant flags>]) directly, or a module constant
+    bound once to such a call; else None"""
+    import ast as _ast
+
+    from .terms import is_call as _is_call, is_const as _is_const
+
+    if _is_call(t, "ext:re.compile") and t[2] and _is_const(t[2][0]) and isinstance(t[2][0][2], str):
+        flags = 0
+        if len(t[2]) > 1:
+            if not (_is_const(t[2][1]) and isinstance(t[2][1][2], int)):
+                return None
+            flags = t[2][1][2]
+        if len(t) > 3 and t[3]:
+            return None
+        return (t[2][0][2], flags)
+    if isinstance(t, tuple) and len(t) == 2 and t[0] == "global" and t[1].startswith("const:"):
+        modname, _, name = t[1][6:].rpartition(".")
+        m = w.prog.by_short.get(modname)
+        vals = m.consts.get(name) if m is not None else None
+        if not vals or len(vals) != 1:
+            return None
+        v = vals[0]
+        if not (isinstance(v, _ast.Call) and v.args and isinstance(v.args[0], _ast.Constant) and isinstance(v.args[0].value, str)):
+            return None
+        r = w.prog.resolve_expr_static(m, v.func)
+        if not (r and r[0] == "ext" and r[1] == "re.compile"):
+            return None
+        flags = 0
+        extra = list(v.args[1:]) + [k.value for k in v.keywords if k.arg == "flags"]
+        if len(extra) > 1 or any(k.arg != "flags" for k in v.keywords):
+            return None
+        if extra:
+            flags = _static_re_flags(w, m, extra[0])
+            if flags is None:
+                return None
+        return (v.args[0].value, flags)
+    return None
+
+
+def _static_re_flags(w, m, node):
+    import ast as _ast
+    import re as _re
+
+    if isinstance(node, _ast.Constant) and isinstance(node.value, int):
+        return node.value
+    if isinstance(node, _ast.BinOp) and isinstance(node.op, _ast.BitOr):
+        a, b = _static_re_flags(w, m, node.left), _static_re_flags(w, m, node.right)
+        return None if a is None or b is None else a | b
+    r = w.prog.resolve_expr_static(m, node)
+    if r and r[0] == "ext" and r[1].startswith("re.") and r[1][3:].isupper() and hasattr(_re, r[1][3:]):
+        return int(getattr(_re, r[1][3:]))
+    return None
+
+
+@method("match", "fullmatch", "search")
+def m_regex(c):
+    """<compiled pattern>.match(s) / fullmatch / search: None or a match object"""
+    if compiled_pattern(c.w, c.recv) is None:
+        c.rz("AttributeError", "method .%s() on a value that is not known to be a compiled pattern" % c.callee.split(":")[-1], [("nottype", c.recv, frozenset(["obj:re.Pattern"]))], pure=False)
+    subj = c.arg(0, "string")
+    if subj is not None:
+        c.need_type(subj, frozenset(["str"]), "TypeError", "regex match on a non-string")
+    c.ret(None)
+
+
+@method("issuperset", "issubset", "isdisjoint")
+def m_setrel(c):
+    recv_check(c, frozenset(["set", "frozenset"]), c.callee.split(":")[-1])
+    other = c.arg(0, "other")
+    if other is not None:
+        ts = c.types(other)
+        if ts is None or not ts <= {"str", "bytes"}:
+            c.rz("TypeError", "set relation with a value that may not be iterable or may hold unhashable elements", [("nottype", other, frozenset(["str"]))])
+    c.ret(None, ("type", c.term, frozenset(["bool"])))
+
+
 @method("encode")
 def m_encode(c):
     recv_check(c, frozenset(["str"]), "encode")
